@@ -3,4 +3,4 @@
 repo=${1:-/repo}
 here=$(cd "$(dirname "$0")/.." && pwd)
 for i in 01 02 03 04 05 06 07 08 09 10 11 12 13 14 15 16 17 18 19 20; do echo C$i; done | \
-  xargs -P 10 -I{} sh -c "s=\$(date +%s); out=\$($here/bin/check {} --repo $repo --no-evidence ${TIER:+--tier $TIER} 2>&1); rc=\$?; e=\$(date +%s); echo \"{} exit=\$rc \$((e-s))s\"; if [ \$rc -ne 0 ]; then echo \"\$out\" | grep -v WARNING | grep -m3 'ANALYSIS-ERROR\|^  C[0-9][0-9]\|^  ISO\|^  CRASH\|Traceback' | cut -c1-400; fi" | sort
+  xargs -P ${JOBS:-10} -I{} sh -c "s=\$(date +%s); out=\$($here/bin/check {} --repo $repo --no-evidence ${TIER:+--tier $TIER} 2>&1); rc=\$?; e=\$(date +%s); echo \"{} exit=\$rc \$((e-s))s\"; if [ \$rc -ne 0 ]; then echo \"\$out\" | grep -v WARNING | grep -m3 'ANALYSIS-ERROR\|^  C[0-9][0-9]\|^  ISO\|^  CRASH\|Traceback' | cut -c1-400; fi" | sort
